@@ -7,7 +7,7 @@
    The two halves: C10_one_pass (one pass returns exactly the satisfying assignments of the free variables under that
    universal value: the partition invariant of C02 with the universal variable pre-bound and the free variables completed) and
    C10_intersection (one pass per universal value, running intersection, early exit = matched in EVERY pass). *)
-From EQL Require Import Base Values Syntax Spec EvalPure EvalPure_Facts Query_Facts ForAll_Facts ForAll_Full.
+From EQL Require Import Base Values Syntax Spec Generated EvalPure EvalPure_Facts Query_Facts ForAll_Facts ForAll_Full Dedup Dedup_Facts.
 
 (* c = the condition of for_all(u, c) - any tree of comparisons / memberships / expressions / and / or / not / sub-queries over
    u and any number of free variables (free u c = the other variables of c); every domain duplicate-free, the free variables range
@@ -40,6 +40,31 @@ Print Assumptions C10_intersection.
 Theorem C10_rows_true : forall h dom u c b ywf r, In r (eval h dom (CForAll u c) b ywf) -> snd r = false.
 Proof. exact forall_rows. Qed.
 Print Assumptions C10_rows_true.
+
+(* the evaluator WITH its de-duplication of rows (Dedup.v) computes for_all exactly as above: every pass starts from a fresh state
+   and for_all requires from its condition EVERY variable of the condition (read from ForAll._required_variables_from_child_ by the
+   translator on every run), so inside a pass nothing is dropped - whatever the query selects (U = the variables of the condition) *)
+Theorem C10_forall_dedup : forall h dom U u c k b ywf s,
+  (forall x, In x U -> NoDup (dom x)) -> (forall x, In x U -> dom x <> []) -> basic U c = true -> incl U (cvars c) ->
+  in_dom dom b ->
+  evalD h dom (CForAll u c) k b ywf s = (eval h dom (CForAll u c) b ywf, s).
+Proof. exact forall_no_dedup. Qed.
+Print Assumptions C10_forall_dedup.
+
+Theorem C10_forall_requires_condition_variables : forall_adds_condition_variables = true.
+Proof. reflexivity. Qed.
+Print Assumptions C10_forall_requires_condition_variables.
+
+(* non-vacuity of the hypotheses, and the witness of the repaired defect: for_all(u, or_(y.a != u.b, x.a != u.a)) selecting y only -
+   x = o0 works for both universal values; had the passes been keyed on the selection, only the first x per value would survive *)
+Example C10_dedup_nonvacuous :
+  let h := [[VInt 3; VInt 1]; [VInt 0; VInt 0]; [VInt 0; VInt 0]; [VInt 2; VInt 0]] in
+  let dom := fun k : key => match k with 1 => [VObj 2; VObj 0] | 2 => [VObj 2] | 9 => [VObj 2; VObj 3] | _ => [] end in
+  let a k := TMap (MField 0) (TVar k) in let b k := TMap (MField 1) (TVar k) in
+  let c := CElseIf (CCmp Ne (a 2) (b 9)) (CCmp Ne (a 1) (a 9)) in
+  basic [9; 1; 2] c = true /\ incl [9; 1; 2] (cvars c) /\
+  run_queryD h dom [TVar 2] (Some (CForAll 9 c)) = [[VObj 2]].
+Proof. cbv zeta. split; [reflexivity|]. split; [intros x Hx; cbn in *; tauto|]. vm_compute. reflexivity. Qed.
 
 (* non-vacuity: a disjunction whose first branch omits the free variable, two universal values, two free values —
    the defect witness of the repaired code: exactly the free value for which the condition holds for BOTH universal values *)
